@@ -14,7 +14,9 @@ func init() {
 	register("C03", &checkDef{level: "exploration", fn: runC03, race: ipamRace, netns: true,
 		batches:  func(th bool) int { return map[bool]int{false: 4, true: 16}[th] },
 		parallel: func(bool) int { return 4 },
-		timeout:  func(th bool) time.Duration { return map[bool]time.Duration{false: 20 * time.Minute, true: 90 * time.Minute}[th] },
+		timeout: func(th bool) time.Duration {
+			return map[bool]time.Duration{false: 20 * time.Minute, true: 90 * time.Minute}[th]
+		},
 	})
 }
 
